@@ -47,8 +47,11 @@ XDIGIT = DIGIT + "abcdefABCDEF"
 #  independent Python implementation of the escape rewriting (Spec.v map_escapes)
 # =====================================================================================
 def lex_esc_literal(s):
+    """the escapes the regex engine gives a meaning (Spec.v rx_escape_class): hexadecimal (fixed width or braced), digit,
+    C escapes, classes, the assertions \\A \\z \\B"""
     c = s[0]
-    return (c in "xuU" and len(s) > 1 and s[1] in XDIGIT) or c in DIGIT or c in "afnrtv\\" or c in "pP" or c in "dDsSwW" or c in "Az"
+    return ((c in "xuU" and len(s) > 1 and (s[1] in XDIGIT or s[1] == "{")) or c in DIGIT or c in "afnrtv\\" or c in "pP"
+            or c in "dDsSwW" or c in "AzB")
 
 
 # char::is_whitespace: what the regex engine skips when ignore_whitespace is on
@@ -90,7 +93,7 @@ def re_trim_ok(w):
     if w == "":
         return True
     c, r = w[-1], w[:-1]
-    if c in WSS or c == "\\":
+    if c in " \t" or c == "\\":         # only a space, a tab or a backslash at the end needs to be escaped
         k = len(r) - len(r.rstrip("\\"))
         return k % 2 == 1
     return True
@@ -159,7 +162,7 @@ def wf_layout(awc, lay, sp):
         grp, sts = sts[:cnt], sts[cnt:]
         if any(e != grp[0][1] for _, e in grp):
             why.append("dline %d mixes kinds" % k)
-        if not (all_in(dl["kw"], ALPHA + DIGIT) and dl["gap"] != "" and all_in(dl["gap"], IWSS) and all_in(dl["seps"], IWSS)
+        if not (all_in(dl["kw"], ALPHA + DIGIT) and dl["gap"] != "" and all_in(dl["gap"], IWSS) and all(sp_ != "" and all_in(sp_, IWSS) for sp_ in dl["seps"])
                 and all_in(dl["trail"], IWSS) and dl["nl"] in LSS and all(wf_ditem(awc, it) for it in dl["after"])):
             why.append("dline %d layout" % k)
     if sts:
@@ -175,7 +178,7 @@ def wf_layout(awc, lay, sp):
         last = eof and k + 1 == len(lay["rlines"])
         a = rl["after"]
         after_ok = last if not a else a[0][0] == "n"
-        if not (all(all_in(l, IWSS) and all_in(r, IWSS) for l, r in rl["pads"]) and all_in(rl["blanks"], IWSS) and rl["sp"] in " \t"
+        if not (all(all_in(l, IWSS) and all_in(r, IWSS) for l, r in rl["pads"]) and all_in(rl["blanks"], " \t") and rl["sp"] in " \t"
                 and all_in(rl["trail"], IWSS) and all(wf_ritem(awc, it) for it in a) and after_ok):
             why.append("rline %d layout" % k)
     f = lay["final"]
@@ -286,7 +289,7 @@ def encode(awc, pe, iw, sp, lay):
     w += enc_items(lay["pre"])
     w.append(str(len(lay["dlines"])))
     for dl in lay["dlines"]:
-        w += ["1" if dl["upper"] else "0", xh(dl["kw"]), xh(dl["gap"]), str(len(dl["seps"]))] + [str(ord(c)) for c in dl["seps"]]
+        w += ["1" if dl["upper"] else "0", xh(dl["kw"]), xh(dl["gap"]), str(len(dl["seps"]))] + [xh(c) for c in dl["seps"]]
         w += [xh(dl["trail"]), str(ord(dl["nl"]))] + enc_items(dl["after"])
     w.append(xh(lay["sepb"]))
     w += enc_items(lay["gap0"])
@@ -313,9 +316,9 @@ PLAIN_ESC = ['"', "'", "<", ">", ",", ";", "%", "!", "=", "@", "_", "/", ":", "`
              "ß", "Ω", " ", "\t", "\x0c", "\x85", "\u200e", "\xa0", "\u3000"]
 LITERALS = list("abcxyz019_=!@:`,;'\"<>%/") + ["é", "♠", "\U0001F600", "ß", "Ω", " ", "\t", "\x0c", "\x85", "\u200e", "\u200f"]
 LEXESC = ["\\d", "\\w", "\\s", "\\n", "\\t", "\\x41", "\\101", "\\u00e9", "\\pL", "\\a", "\\f", "\\r", "\\v", "\\D", "\\S", "\\W", "\\x7a",
-          "\\A", "\\z", "\\U0001F600", "\\0", "\\7"]
+          "\\A", "\\z", "\\U0001F600", "\\0", "\\7", "\\B", "\\x{41}", "\\u{e9}", "\\U{1F600}", "\\x{2}", "\\P{L}"]
 GROUPS = ["[a-c]", "[^x]", ".", "(ab|c)", "[é♠]", "(a|é)", "[0-9]", "[\\]a]", "[b\\-c]", "[ \t]", "[<>]", "(?:x y)", "[',\";]",
-          "[%/]", "a{2}", "a{1,3}", "[\\ x]", "[\\\xa0\\#]"]
+          "[%/]", "a{2}", "a{1,3}", "[\\ x]", "[\\\xa0\\#]", "[\\x{41}-\\x{43}]", "[^\\u{e9}]", "[\\U{1F600}a]"]
 
 
 def gen_regex(rng, awc, pe, has_pre):
@@ -342,7 +345,7 @@ def gen_regex(rng, awc, pe, has_pre):
                 else:
                     a = rng.choice(["%%", "//", "<", "%", "/", "<A>", "\\\\", "\\ "])
                 parts.append(a)
-                if rng.random() < 0.2 and a not in ("\\b", "\\A", "\\z") and not a.endswith("}"):
+                if rng.random() < 0.2 and a not in ("\\b", "\\A", "\\z", "\\B") and not a.endswith("}"):
                     parts.append(rng.choice(["+", "*", "?"]))
             w = "".join(parts)
         if re_printable(awc, has_pre, w):
@@ -425,7 +428,7 @@ def random_layout(rng, awc, sp):
         while j < len(sts) and sts[j][1] == sts[i][1] and rng.random() < 0.6:
             j += 1
         dlines.append({"upper": rng.random() < 0.4, "kw": rng.choice(["", "", "tate", "tart", "9", "X", "s", "x", "ABC123", "S"]),
-                       "gap": blanks(rng, 1, 3), "seps": [blanks(rng, 1, 1) for _ in range(j - i - 1)], "trail": blanks(rng, 0, 2),
+                       "gap": blanks(rng, 1, 3), "seps": [blanks(rng, 1, 1 if rng.random() < 0.5 else 4) for _ in range(j - i - 1)], "trail": blanks(rng, 0, 2),
                        "nl": chr(rng.choice(LINESEP)) if rng.random() < 0.5 else "\n", "after": gen_ditems(rng, awc)})
         i = j
     r = rng.random()
@@ -437,7 +440,7 @@ def random_layout(rng, awc, sp):
         after = gen_ritems(rng, awc, True)
         if last and rng.random() < 0.5:
             after = []
-        rlines.append({"pads": [(blanks(rng, 0, 2), blanks(rng, 0, 2)) for _ in range(npads)], "blanks": blanks(rng, 0, 2),
+        rlines.append({"pads": [(blanks(rng, 0, 2), blanks(rng, 0, 2)) for _ in range(npads)], "blanks": "".join(rng.choice(" \t") for _ in range(rng.randint(0, 2))),
                        "sp": rng.choice(" \t"), "q": rng.choice("sd"), "skip": rng.choice(";ds"), "trail": blanks(rng, 0, 2), "after": after})
     return {"pre": gen_ditems(rng, awc), "dlines": dlines, "sepb": "".join(rng.choice(" \t") for _ in range(rng.choice([0, 0, 1, 2, 3]))),
             "gap0": gen_ritems(rng, awc, False), "rlines": rlines, "final": final}
@@ -456,7 +459,7 @@ def corpus():
     full = {"states": [("Str", True), ("A", False), ("B.c", False)],
             "rules": [{"pre": ["INITIAL", "Str"], "re": '\\"a\\ ', "name": "OPEN", "target": ("Str", "+")},
                       {"pre": [], "re": "[ \\t]+", "name": None, "target": None},
-                      {"pre": ["Str"], "re": "x", "name": "it's", "target": ("A", "-")},
+                      {"pre": ["Str"], "re": "x\x0c", "name": "it's", "target": ("A", "-")},
                       {"pre": [], "re": "b\\\\", "name": None, "target": ("B.c", "R")}]}
     for awc in (False, True):
         for pe in (False, True):
@@ -464,7 +467,7 @@ def corpus():
             rc = [("c", " c", "\n")] if awc else []
             lay = {"pre": [("w", "\n")] + cm,
                    "dlines": [{"upper": False, "kw": "", "gap": " ", "seps": [], "trail": "", "nl": "\n", "after": []},
-                              {"upper": True, "kw": "t4", "gap": " \t", "seps": ["\t"], "trail": " ", "nl": "\r", "after": [("w", "\n"), ("w", " ")]}],
+                              {"upper": True, "kw": "t4", "gap": " \t", "seps": ["\t \x0c"], "trail": " ", "nl": "\r", "after": [("w", "\n"), ("w", " ")]}],
                    "sepb": " ", "gap0": [("n", "\n")],
                    "rlines": [{"pads": [("", ""), (" ", "")], "blanks": "\t", "sp": " ", "q": "d", "skip": ";", "trail": "", "after": [("n", "\n")]},
                               {"pads": [], "blanks": "", "sp": " ", "q": "s", "skip": ";", "trail": " ", "after": [("n", "\r"), ("n", "\n")]},
@@ -488,6 +491,8 @@ def account(ctx, awc, pe, iw, sp, lay, text):
         c("long_keyword")
     if any(not s.isascii() for dl in lay["dlines"] for s in dl["seps"] + [dl["gap"]]):
         c("declaration_blank_multibyte")
+    if any(len(s) > 1 for dl in lay["dlines"] for s in dl["seps"]):
+        c("declaration_names_separated_by_several_blanks")
     if not sp["rules"]:
         c("no_rule")
     for r, rl in zip(sp["rules"], lay["rlines"]):
@@ -513,8 +518,12 @@ def account(ctx, awc, pe, iw, sp, lay, text):
             c("regex_rewritten_by_unescape")
         if iw and map_escapes(pe, r["re"], True) != map_escapes(pe, r["re"], False):
             c("regex_with_escaped_white_space_under_ignore_whitespace")
-        if r["re"] and r["re"][-1] in WSS:
+        if r["re"] and r["re"][-1] in " \t":
             c("regex_ends_in_escaped_blank")
+        if r["re"] and r["re"][-1] in "\x0c\x85\u200e\u200f":
+            c("regex_ends_in_FF_NEL_LRM_RLM_" + ("escaped" if (len(r["re"][:-1]) - len(r["re"][:-1].rstrip("\\"))) % 2 == 1 else "bare"))
+        if "\\B" in r["re"] or "{" in r["re"] and any(x in r["re"] for x in ("\\x{", "\\u{", "\\U{")):
+            c("regex_with_\\B_or_braced_hex_escape")
         if r["re"].endswith("\\\\"):
             c("regex_ends_in_escaped_backslash")
         if any(ch in " \t" for ch in r["re"][:-1]):
@@ -582,11 +591,12 @@ def run_part(ctx, tag="C11round"):
         "awc x pe) then %d random (specification, layout, awc, pe, iw — iw only once C11.IW_ESCAPE_FIXED) inside wf_aspec/wf_layout (asserted by an independent Python "
         "implementation AND by the extracted Coq booleans): 0-8 start states (names from the scanner's language incl. near-INITIAL), "
         "grouped into declaration lines at random (keyword %%s/%%S/%%x/%%X + alphanumerics, blanks from all six in-line "
-        "Pattern_White_Space characters incl. multi-byte ones, exactly one blank between names), 0-25 rules: <..> prefixes with "
+        "Pattern_White_Space characters incl. multi-byte ones, one to four such blanks between names), 0-25 rules: <..> prefixes with "
         "repetitions and padded names, targets <S>/<+S>/<-S>, skip rules spelled ; \"\" '', names in either quoting style containing "
         "quotes, <, >, ;, %%%%, //, form feed, NEL, LRM, multi-byte characters; written regexes built from atoms the regex crate accepts "
-        "(literals incl. blanks, escapes that unescape rewrites, regex/lex escapes, \\b, classes, groups, quantifiers), ending in "
-        "escaped blanks / escaped backslashes, behind a prefix also empty or starting with a blank, '<', '%%%%', '//'; between lines "
+        "(literals incl. blanks, escapes that unescape rewrites, regex/lex escapes incl. \\B and braced \\x{..} \\u{..} \\U{..} in and outside "
+        "classes, \\b, classes, groups, quantifiers), ending in escaped blanks / escaped backslashes / a bare or escaped form feed, NEL, LRM, RLM "
+        "(kept: only spaces and tabs separate the regex from the name), behind a prefix also empty or starting with a blank, '<', '%%%%', '//'; between lines "
         "every white-space character (declarations) resp. every line separator (rules), whole-line comments when awc; first rule on "
         "the line of the %%%%; text ending with a rule line, a comment without newline, or a closing %%%% + white space; from_str or "
         "new_with_options. text + expected transcript from the extracted print_spec/spec_of, compared as strings with the "
